@@ -193,10 +193,10 @@ Proof.
 Qed.
 
 Theorem spec_ok_on_model F c : gspec_ok F c (grun_case F c) = true.
-Proof. apply spec_run_on_model. Qed.
+Proof. unfold gspec_ok, grun_case. exact (spec_run_on_model F (snd c) (fst c)). Qed.
 
 Theorem spec_ok_iff F c o : gspec_ok F c o = true <-> SpecRun F (fst c) (snd c) o.
-Proof. apply spec_run_iff. Qed.
+Proof. unfold gspec_ok. exact (spec_run_iff F (snd c) (fst c) o). Qed.
 
 (* the hypotheses are satisfiable / the definitions compute: a wrap-around, an absolute, gauge
    arithmetic through every route, a NaN, a record_many through a handle on both doubles *)
